@@ -241,7 +241,7 @@ fn run_suite<S: ShortGroupSignatureScheme>(v: &Value, ps: bool) -> Value {
                     shared.insert(key, n);
                 }
             }
-            "comm" | "venc" | "rev" => {
+            "comm" | "venc" | "rev" | "mem" => {
                 let key = (st["ref"].as_str().unwrap().to_string(), st["claim"].as_u64().unwrap() as usize);
                 if !shared.contains_key(&key) {
                     let n = rnd(&mut cx.rng);
@@ -262,6 +262,7 @@ fn run_suite<S: ShortGroupSignatureScheme>(v: &Value, ps: bool) -> Value {
     let mut sig_of: IndexMap<String, usize> = IndexMap::new(); // sig stmt id -> cred index
     let mut comm_gens: IndexMap<String, (Sh1, Sh1)> = IndexMap::new();
     let mut venc_gens: IndexMap<String, (Sh1, Sh1)> = IndexMap::new();
+    let mut mem_sets: IndexMap<String, (credx::knox::accumulator::vb20::SecretKey, credx::knox::accumulator::vb20::PublicKey, credx::knox::accumulator::vb20::Accumulator)> = IndexMap::new();
     fn st_cred(spec: &Vec<Value>, sid: &str) -> usize {
         spec.iter().find(|s| s["k"] == "sig" && s["id"] == sid).map(|s| s["cred"].as_u64().unwrap() as usize).unwrap_or(0)
     }
@@ -320,6 +321,17 @@ fn run_suite<S: ShortGroupSignatureScheme>(v: &Value, ps: bool) -> Value {
                 let ci = st_cred(stmts_spec, &r);
                 let (ipub, _, _) = issuers[creds[ci].issuer].as_ref().unwrap();
                 statements.push(RevocationStatement { id: id.clone(), reference_id: r.clone(), accumulator: ipub.revocation_registry, verification_key: ipub.revocation_verifying_key, claim }.into());
+                model_schema.push(json!({"k":"rev","id":idn(&ids,&id),"ref":idn(&ids,&r),"claim":claim}));
+            }
+            "mem" => {
+                // set membership: the verifier's own accumulator; same proof type and verifier as revocation
+                let r = st["ref"].as_str().unwrap().to_string();
+                let claim = st["claim"].as_u64().unwrap() as usize;
+                let sk = credx::knox::accumulator::vb20::SecretKey::new(None);
+                let vk = credx::knox::accumulator::vb20::PublicKey::from(&sk);
+                let registry = credx::knox::accumulator::vb20::Accumulator::random(rand::thread_rng());
+                mem_sets.insert(id.clone(), (sk, vk, registry));
+                statements.push(MembershipStatement { id: id.clone(), reference_id: r.clone(), accumulator: registry, verification_key: vk, claim }.into());
                 model_schema.push(json!({"k":"rev","id":idn(&ids,&id),"ref":idn(&ids,&r),"claim":claim}));
             }
             _ => panic!("unknown statement kind"),
@@ -672,6 +684,8 @@ fn run_suite<S: ShortGroupSignatureScheme>(v: &Value, ps: bool) -> Value {
     struct RevMat {
         committing: MembershipProofCommitting,
         params: ProofParams,
+        acc: credx::knox::accumulator::vb20::Accumulator,
+        vk: credx::knox::accumulator::vb20::PublicKey,
     }
     let mut revs: IndexMap<String, RevMat> = IndexMap::new();
     for st in stmts_spec {
@@ -699,7 +713,30 @@ fn run_suite<S: ShortGroupSignatureScheme>(v: &Value, ps: bool) -> Value {
         }
         let params = ProofParams::new(ipub.revocation_verifying_key, Some(b"verifier nonce"));
         let committing = MembershipProofCommitting::new(ProofMessage::Hidden(HiddenMessage::ExternalBlinding(y, ny)), wit, params, ipub.revocation_verifying_key);
-        revs.insert(id, RevMat { committing, params });
+        revs.insert(id, RevMat { committing, params, acc: ipub.revocation_registry, vk: ipub.revocation_verifying_key });
+    }
+    for st in stmts_spec {
+        if st["k"].as_str().unwrap() != "mem" {
+            continue;
+        }
+        let id = st["id"].as_str().unwrap().to_string();
+        let r = st["ref"].as_str().unwrap().to_string();
+        let claim = st["claim"].as_u64().unwrap() as usize;
+        let cred = &creds[sig_of[&r]];
+        let (sk, vk, registry) = &mem_sets[&id];
+        let mut y = cred.msgs[claim];
+        let mut ny = *shared.get(&(r.clone(), claim)).unwrap();
+        if id == target && (devk == "rev_other_element_shared" || devk == "rev_other_element_independent") {
+            // the holder's value is not the member it proves: the sub-protocol is run on another element of the set
+            y += Scalar::ONE;
+            if devk == "rev_other_element_independent" {
+                ny = rnd(&mut cx.rng);
+            }
+        }
+        let wit = credx::knox::accumulator::vb20::MembershipWitness::new(Element(y), *registry, sk);
+        let params = ProofParams::new(*vk, Some(b"verifier nonce"));
+        let committing = MembershipProofCommitting::new(ProofMessage::Hidden(HiddenMessage::ExternalBlinding(y, ny)), wit, params, *vk);
+        revs.insert(id, RevMat { committing, params, acc: *registry, vk: *vk });
     }
 
     // ---- assemble a presentation for a given challenge
@@ -814,7 +851,7 @@ fn run_suite<S: ShortGroupSignatureScheme>(v: &Value, ps: bool) -> Value {
                     proofs.insert(id.clone(), p.into());
                     mproofs.push(json!([idn(&ids,&id), {"k":"venc","id":idn(&ids,&id),"c1":hexs(&vm.c1.dl),"c2":hexs(&vm.c2.dl),"bp":hexs(&bp),"has":false}]));
                 }
-                "rev" => {
+                "rev" | "mem" => {
                     if id == target && devk == "omit_pred" {
                         continue;
                     }
@@ -827,16 +864,18 @@ fn run_suite<S: ShortGroupSignatureScheme>(v: &Value, ps: bool) -> Value {
                         proof = fj(&pv);
                     }
                     // the verifier's recomputed commitments, as one opaque item for the model's transcript comparison
-                    let r = st["ref"].as_str().unwrap().to_string();
-                    let (ipub, _, _) = issuers[creds[sig_of[&r]].issuer].as_ref().unwrap();
-                    let fin_v = proof.finalize(ipub.revocation_registry, rm.params, ipub.revocation_verifying_key, Element(c));
+                    let fin_v = proof.finalize(rm.acc, rm.params, rm.vk, Element(c));
                     let mut t = merlin::Transcript::new(b"opaque item");
                     fin_v.get_bytes_for_challenge(&mut t);
                     let mut okm = [0u8; 64];
                     t.challenge_bytes(b"digest", &mut okm);
                     let digest = Scalar::from_bytes_wide(&okm);
                     let sy: Scalar = fj(&tj(&proof)["s_y"]);
-                    proofs.insert(id.clone(), RevocationProof { id: id.clone(), proof }.into());
+                    if st["k"] == "mem" {
+                        proofs.insert(id.clone(), MembershipProof { id: id.clone(), proof }.into());
+                    } else {
+                        proofs.insert(id.clone(), RevocationProof { id: id.clone(), proof }.into());
+                    }
                     mproofs.push(json!([idn(&ids,&id), {"k":"rev","id":idn(&ids,&id),"sy":hexs(&sy),"fin":hexs(&digest)}]));
                 }
                 _ => {}
